@@ -1,5 +1,9 @@
 ID = 'C11'
-UNITS = {'enc': dict(wrap='wrap.cc', new_block=64, per_harness={'h_b64dec.c': {'new_block': 320}})}
+# 'net': fast encoding (see props/C08/spec.py): -fno-inline, std::string::_M_create cut to a reported bound failure (strings <= 15 bytes),
+# deterministic pool allocator, --ptrdiff/--flat-unions
+UNITS = {'net': dict(wrap='wrap_net.cc', new_block=64, cxxflags=['-fno-inline'], cuts=['basic_stringIcSt11char_traitsIcESaIcEE9_M_createERmm$'], extra_c=['sso_bound.c'],
+                     ir2c_flags=['--ptrdiff', '--flat-unions'], gen_defs=['VERIF_NEW_POOL=8']),
+         'enc': dict(wrap='wrap.cc', new_block=64, per_harness={'h_b64dec.c': {'new_block': 320}, 'h_b64enc.c': {'new_block': 320}})}
 BOUNDS = 'base64_decode: every input of length 0..8 over all 256 byte values, both alphabets'
 STUBS = []
 OUTSIDE = []
@@ -17,4 +21,14 @@ def queries(tier):
         qs.append(dict(name='escape_%s_len%d' % (nm, L), unit='enc', harness='h_escape.c', defs={'WHICH': which, 'LEN': L}, unwind=4 * L + 14,
                        timeout=900, mem_gb=8, desc='escape_%s on %d symbolic bytes (all 256 values): alphabet restriction and independent unescaper inverts' % (nm, L),
                        bounds='input length == %d' % L))
+    for L in ([0, 1, 2, 3, 4] if tier == 'quick' else range(0, 8)):
+        qs.append(dict(name='b64enc_len%d' % L, unit='enc', harness='h_b64enc.c', defs={'LEN': L}, unwind=66, timeout=600, mem_gb=6,
+                       desc='base64_encode of %d symbolic bytes, symbolic alphabet: equals the RFC 4648 reference encoder; base64_decode inverts it' % L, bounds='data length == %d, all byte values, both alphabets' % L))
+    for L in ([0, 1, 2, 4] if tier == 'quick' else range(0, 7)):
+        qs.append(dict(name='rot13_len%d' % L, unit='enc', harness='h_rot13.c', defs={'LEN': L}, unwind=L + 2, timeout=300, mem_gb=4,
+                       desc='rot13 on %d symbolic bytes: reference mapping (only ASCII letters move, by 13) and involution' % L, bounds='length == %d, all byte values' % L))
+    for L in ([1, 2] if tier == 'quick' else [1, 2, 3, 4]):
+        qs.append(dict(name='netloc_len%d' % L, unit='net', harness='h_netloc.c', defs={'LEN': L}, unwind=max(L + 9, 11), timeout=900, mem_gb=8,
+                       desc='render_netloc text == host ":" decimal(port) for every port 0..65535 and %d symbolic colon-free host bytes; parse_netloc inverts it' % L,
+                       bounds='host length == %d (all byte values but colon), port in [0,65535], default_port in [0,65535]' % L))
     return qs
